@@ -161,6 +161,28 @@ func (ss *SpecSet) parseModule(name, src string) (*SpecModule, error) {
 		app.WriteString(")")
 		fmt.Fprintf(&cur, "(assert (forall %s (! (= %s %s) :pattern (%s))))\n", params, app.String(), body, app.String())
 	}
+	// (declare-deep name nameList local): a predicate that holds of a tree when `local` holds of every node in it
+	var expanded []*SX
+	for _, f0 := range forms {
+		if f0.head() == "declare-deep" {
+			more, err := parseSX(genDeep(ss.U, f0.List[1].Atom, f0.List[2].Atom, f0.List[3].Atom))
+			if err != nil {
+				return nil, err
+			}
+			expanded = append(expanded, more...)
+			continue
+		}
+		if f0.head() == "declare-deep-sum" {
+			more, err := parseSX(genDeepSum(ss.U, f0.List[1].Atom, f0.List[2].Atom, f0.List[3].Atom))
+			if err != nil {
+				return nil, err
+			}
+			expanded = append(expanded, more...)
+			continue
+		}
+		expanded = append(expanded, f0)
+	}
+	forms = expanded
 	for _, f0 := range forms {
 		f := ss.litify(f0)
 		switch f.head() {
@@ -327,4 +349,80 @@ func (ss *SpecSet) closure(uses []string) []*SpecModule {
 		visit(u)
 	}
 	return out
+}
+
+// genDeep: name(n) holds when local(n') holds of every node n' of the tree n (nil children hold trivially);
+// nameList(l, k) is the same for the first k elements of a list.  Generated from the AST struct table, with
+// the snoc and nth lemmas (proved by the engine) the loops of the parser need.
+func genDeep(U *Universe, name, list, local string) string {
+	var b strings.Builder
+	fmt.Fprintf(&b, "(declare-fun %s (Node) Bool)\n(declare-fun %s (Seq_Node Int) Bool)\n", name, list)
+	fmt.Fprintf(&b, "(assert (= (%s nilN) true))\n(assert (forall ((t Int)) (! (= (%s (nilp t)) true) :pattern ((%s (nilp t))))))\n", name, name, name)
+	for _, si := range U.nodeTys {
+		var binders, args []string
+		for i, f := range si.Fields {
+			binders = append(binders, fmt.Sprintf("(f%d %s)", i, f.Sort))
+			args = append(args, fmt.Sprintf("f%d", i))
+		}
+		ctor := "mk_" + si.Name
+		if len(args) > 0 {
+			ctor = "(mk_" + si.Name + " " + strings.Join(args, " ") + ")"
+		}
+		conds := []string{fmt.Sprintf("(%s %s)", local, ctor)}
+		for i, f := range si.Fields {
+			switch f.Sort {
+			case "Node":
+				conds = append(conds, fmt.Sprintf("(%s f%d)", name, i))
+			case "Seq_Node":
+				conds = append(conds, fmt.Sprintf("(%s f%d (Seq_Node.len f%d))", list, i, i))
+			}
+		}
+		body := fmt.Sprintf("(= (%s %s) (and %s))", name, ctor, strings.Join(conds, " "))
+		if len(binders) == 0 {
+			fmt.Fprintf(&b, "(assert %s)\n", body)
+		} else {
+			fmt.Fprintf(&b, "(assert (forall (%s) (! %s :pattern ((%s %s)))))\n", strings.Join(binders, " "), body, name, ctor)
+		}
+	}
+	fmt.Fprintf(&b, "(assert (forall ((l Seq_Node) (n Int)) (! (= (%s l n) (ite (<= n 0) true (and (%s l (- n 1)) (%s (Seq_Node.nth l (- n 1)))))) :pattern ((%s l n)))))\n", list, list, name, list)
+	fmt.Fprintf(&b, "(lemma %s-snoc :induction n (forall ((l Seq_Node) (x Node) (n Int)) (! (=> (<= n (Seq_Node.len l)) (= (%s (Seq_Node.snoc l x) n) (%s l n))) :pattern ((%s (Seq_Node.snoc l x) n)))))\n", list, list, list, list)
+	fmt.Fprintf(&b, "(lemma %s-nth :induction n (forall ((l Seq_Node) (n Int) (i Int)) (! (=> (and (%s l n) (<= 0 i) (< i n)) (%s (Seq_Node.nth l i))) :pattern ((%s l n) (Seq_Node.nth l i)))))\n", list, list, name, list)
+	return b.String()
+}
+
+// genDeepSum: name(n) = own(n) + the sum of name over all children of n (nil children count 0);
+// nameList(l, k) is the sum over the first k elements of a list.
+func genDeepSum(U *Universe, name, list, own string) string {
+	var b strings.Builder
+	fmt.Fprintf(&b, "(declare-fun %s (Node) Int)\n(declare-fun %s (Seq_Node Int) Int)\n", name, list)
+	fmt.Fprintf(&b, "(assert (= (%s nilN) 0))\n(assert (forall ((t Int)) (! (= (%s (nilp t)) 0) :pattern ((%s (nilp t))))))\n", name, name, name)
+	for _, si := range U.nodeTys {
+		var binders, args []string
+		for i, f := range si.Fields {
+			binders = append(binders, fmt.Sprintf("(f%d %s)", i, f.Sort))
+			args = append(args, fmt.Sprintf("f%d", i))
+		}
+		ctor := "mk_" + si.Name
+		if len(args) > 0 {
+			ctor = "(mk_" + si.Name + " " + strings.Join(args, " ") + ")"
+		}
+		terms := []string{fmt.Sprintf("(%s %s)", own, ctor)}
+		for i, f := range si.Fields {
+			switch f.Sort {
+			case "Node":
+				terms = append(terms, fmt.Sprintf("(%s f%d)", name, i))
+			case "Seq_Node":
+				terms = append(terms, fmt.Sprintf("(%s f%d (Seq_Node.len f%d))", list, i, i))
+			}
+		}
+		body := fmt.Sprintf("(= (%s %s) (+ %s 0))", name, ctor, strings.Join(terms, " "))
+		if len(binders) == 0 {
+			fmt.Fprintf(&b, "(assert %s)\n", body)
+		} else {
+			fmt.Fprintf(&b, "(assert (forall (%s) (! %s :pattern ((%s %s)))))\n", strings.Join(binders, " "), body, name, ctor)
+		}
+	}
+	fmt.Fprintf(&b, "(assert (forall ((l Seq_Node) (n Int)) (! (= (%s l n) (ite (<= n 0) 0 (+ (%s l (- n 1)) (%s (Seq_Node.nth l (- n 1)))))) :pattern ((%s l n)))))\n", list, list, name, list)
+	fmt.Fprintf(&b, "(lemma %s-snoc :induction n (forall ((l Seq_Node) (x Node) (n Int)) (! (=> (<= n (Seq_Node.len l)) (= (%s (Seq_Node.snoc l x) n) (%s l n))) :pattern ((%s (Seq_Node.snoc l x) n)))))\n", list, list, list, list)
+	return b.String()
 }
